@@ -43,6 +43,7 @@ DEFAULT_STYLE = {
     "end_eol": True,
     "counts_extra": False,
     "aamap": False,
+    "long": False,        # many extra keywords: lines that wrap several times
 }
 
 
@@ -118,7 +119,7 @@ def plan_stars(mol, style, rnd):
         cand = [(e, bi) for e, bi in by_center[(c, t)] if bi not in used]
         if not cand:
             continue
-        take = rnd.randint(1, len(cand))
+        take = len(cand) if rnd.random() < 0.5 else rnd.randint(1, len(cand))
         rnd.shuffle(cand)
         sel = cand[:take]
         for _, bi in sel:
@@ -127,7 +128,9 @@ def plan_stars(mol, style, rnd):
     return groups
 
 
-def render_v3000(mol, listing=None, style=None):
+def render_v3000(mol, listing=None, style=None, with_model=False, split_override=None):
+    """split_override = (content_index, position): write that content line split exactly
+    once at `position` (used to enumerate every continuation point of a line)."""
     st = dict(DEFAULT_STYLE)
     st.update(style or {})
     rnd = random.Random(st["seed"])
@@ -159,6 +162,7 @@ def render_v3000(mol, listing=None, style=None):
         star_keys.append(cand)
 
     atom_lines = []
+    model_atoms = []
     for i in order:
         z, mass, rad, chg, x, y, zc = mol.atoms[i]
         sym = SYM_OF[z]
@@ -166,7 +170,9 @@ def render_v3000(mol, listing=None, style=None):
         if st["dt"] and z == 1 and mass in (2, 3) and rnd.random() < 0.8:
             sym = "D" if mass == 2 else "T"
             write_mass = None
-        toks = [str(keys[i]), sym] + [fmt_coord(c, st["coord_fmt"], rnd) for c in (x, y, zc)]
+        ctoks = [fmt_coord(c, st["coord_fmt"], rnd) for c in (x, y, zc)]
+        model_atoms.append([SYM_OF[z], z, chg, rad, mass] + [float(t) for t in ctoks])
+        toks = [str(keys[i]), sym] + ctoks
         toks.append(str(rnd.randint(0, 9)) if st["aamap"] else "0")
         props = []
         if chg or ("CHG" in st["explicit_zero"] and rnd.random() < 0.7):
@@ -176,7 +182,7 @@ def render_v3000(mol, listing=None, style=None):
         if write_mass is not None and (write_mass or ("MASS" in st["explicit_zero"] and rnd.random() < 0.7)):
             props.append(f"MASS={write_mass}")
         if st["extras"]:
-            for _ in range(rnd.randint(0, 3)):
+            for _ in range(rnd.randint(4, 14) if st.get("long") else rnd.randint(0, 3)):
                 props.append(rnd.choice(ATOM_EXTRAS))
         if st["exachg"]:
             props.append(rnd.choice(ATOM_EXTRAS_EXACHG))
@@ -225,7 +231,7 @@ def render_v3000(mol, listing=None, style=None):
         bidx += 1
         toks = [str(bidx), str(t), str(keys[i]), str(keys[j])]
         if st["extras"]:
-            for _ in range(rnd.randint(0, 2)):
+            for _ in range(rnd.randint(6, 16) if st.get("long") else rnd.randint(0, 2)):
                 toks.append(rnd.choice(BOND_EXTRAS))
         bond_lines.append(_join(toks, st, rnd))
 
@@ -253,6 +259,10 @@ def render_v3000(mol, listing=None, style=None):
     lines = list(st["header"]) + ["  0  0  0     0  0            999 V3000"]
     for idx, c in enumerate(contents):
         structural = c.startswith(("BEGIN", "END", "COUNTS"))
+        if split_override is not None and split_override[0] == idx % len(contents) and 1 <= split_override[1] < len(c) and len(c) <= 72:
+            k = split_override[1]
+            lines += [V30 + c[:k] + "-", V30 + c[k:]]
+            continue
         if structural and not st["split_counts"]:
             sub = dict(st)
             sub["split"] = "forced"
@@ -267,6 +277,11 @@ def render_v3000(mol, listing=None, style=None):
     text = eol.join(lines)
     if st["end_eol"]:
         text += eol
+    if with_model:
+        posn = {a: k for k, a in enumerate(order)}
+        model = {"atoms": model_atoms, "bonds": {frozenset((posn[i], posn[j])): t for i, j, t in mol.bonds},
+                 "contents": contents, "n_star_groups": len(groups), "max_endpts": max([len(g[1]) for g in groups] + [0])}
+        return text, model
     return text
 
 
@@ -316,7 +331,7 @@ def _mlines(tag, entries, st, rnd):
     return out
 
 
-def render_v2000(mol, listing=None, style=None):
+def render_v2000(mol, listing=None, style=None, with_model=False):
     st = dict(DEFAULT_STYLE_V2)
     st.update(style or {})
     rnd = random.Random(st["seed"])
@@ -336,10 +351,12 @@ def render_v2000(mol, listing=None, style=None):
     any_chg_or_rad = any(a[3] or a[2] for a in mol.atoms)
 
     atom_lines = []
+    model_atoms = []
     iso_entries, chg_entries, rad_entries = [], [], []
     for i in order:
         z, mass, rad, chg, x, y, zc = mol.atoms[i]
         sym = SYM_OF[z]
+        model_atoms.append([sym, z, chg, rad, mass] + [float(f"{c:10.4f}") for c in (x, y, zc)])
         if st["dt"] and z == 1 and mass in (2, 3) and rnd.random() < 0.8:
             sym = "D" if mass == 2 else "T"
         elif mass:
@@ -420,4 +437,12 @@ def render_v2000(mol, listing=None, style=None):
     if st["text_after_end"]:
         lines += ["", "> <x>", "M  CHG  1   1   5"[: rnd.randint(0, 17)], "$$$$"]
     eol = st["eol"]
-    return eol.join(lines) + eol
+    text = eol.join(lines) + eol
+    if with_model:
+        model = {"atoms": model_atoms, "bonds": {frozenset((pos[i] - 1, pos[j] - 1)): t for i, j, t in mol.bonds},
+                 "encoding": by, "stale": bool(st["stale_codes"] and by == "mline" and any_chg_or_rad),
+                 "max_entries_per_line": max([int(ln[6:9]) for ln in prop_lines if ln[:6] in ("M  CHG", "M  RAD", "M  ISO")] + [0]),
+                 "dt_with_iso": any(a[0] in ("D", "T") for a in [ln[31:34].strip() for ln in atom_lines]) and bool(iso_entries),
+                 "n_prop_lines": len(prop_lines)}
+        return text, model
+    return text
